@@ -9,7 +9,7 @@ import ast
 
 from ..cfg import CFG
 from ..model import (AnalysisError, Repo, call_name, dotted, kwarg, norm,
-                     walk_no_nested)
+                     walk_no_nested, module_calls, module_nodes)
 
 MOD = 'edb.common.topological'
 
@@ -338,8 +338,8 @@ def run(repo: Repo, ctx) -> None:
     for m in repo.modules_in('edb'):
         if m.name.startswith('edb.tools'):
             continue
-        for c in ast.walk(m.tree):
-            if isinstance(c, ast.Call):
+        for c in module_calls(m).get('DepGraphEntry', []):
+            if True:
                 d = dotted(c.func)
                 if d and d.split('.')[-1] == 'DepGraphEntry':
                     n_sites += 1
@@ -367,9 +367,15 @@ def run(repo: Repo, ctx) -> None:
     for m in repo.modules_in('edb'):
         if m.name == MOD:
             continue
-        for fn in [f for f in repo.functions.values() if f.module is m]:
-            for t in walk_no_nested(fn.node):
-                if isinstance(t, ast.Try):
+        for t in module_nodes(m, ast.Try):
+            if not any(h.type is not None and 'CycleError' in norm(h.type)
+                       for h in t.handlers):
+                continue
+            fn = repo.enclosing_function(m, t)
+            if fn is None:
+                continue
+            if True:
+                if True:
                     for h in t.handlers:
                         if h.type is not None and 'CycleError' in norm(h.type):
                             hg = CFG(_Wrap(h.body))
